@@ -238,7 +238,10 @@ def shared_splicer_jobs():
                               "      - return gamma_three(x);\n"]):
         text = base + ((code % ((k,) * code.count("%d"))) if code else "")
         fn = d + "/shlib%d.yaml" % k
-        files = {fn: text, d + "/shared.c": csp, d + "/shared.f": fsp}
+        # a like-named file of another project lies in the directory the second golden run starts from:
+        # with --path given, only --path is searched
+        decoy = "// splicer begin function.alpha_one\n// DECOY from the current directory\n// splicer end function.alpha_one\n"
+        files = {fn: text, d + "/shared.c": csp, d + "/shared.f": fsp, "/sim/other/cwd/shared.c": decoy}
         out.append(Job("shsplice/%d" % k, files, ["--path", d, "--outdir", OUT, "--logdir", OUT, "--nowrite-version", fn],
                        [OUT, WORK, d], meta={"source": "shsplice", "yaml": "shlib", "cwd_free": True}))
     return out
